@@ -73,7 +73,14 @@ def _run_block(args):
             signal.signal(signal.SIGALRM, _on_alarm)
             signal.setitimer(signal.ITIMER_REAL, run_timeout)
             sc = mod.generate(rng, tier, i)
-            res = mod.execute(sc)
+            try:
+                res = mod.execute(sc)
+            except Exception as e1:
+                # a harness exception must reproduce to count: one immediate re-execution of the same scenario
+                # (real gpg children and per-run alarms are load-sensitive); a deterministic harness bug raises again
+                signal.setitimer(signal.ITIMER_REAL, run_timeout)
+                res = mod.execute(copy.deepcopy(sc))
+                agg['transient_harness_exceptions'].append({'index': i, 'error': ('%s: %s' % (type(e1).__name__, e1))[:300]})
             if i in det_check:
                 res2 = mod.execute(copy.deepcopy(sc))
                 agg['determinism_pairs'] += 1
@@ -109,7 +116,7 @@ def new_agg():
             'faults_fired': {}, 'dontcare': {}, 'counters': {},
             'seam_calls': 0, 'sim_ns': 0, 'ops': 0, 'violations': [],
             'harness_errors': [], 'samples': [], 'skipped': 0, 'kf_hits': {},
-            'determinism_pairs': 0, 'states': set()}
+            'determinism_pairs': 0, 'states': set(), 'transient_harness_exceptions': []}
 
 
 def _addd(dst, src):
@@ -165,6 +172,7 @@ def merge_agg(a, b):
         if cnt[k] <= 60:
             a['violations'].append(item)
     a['harness_errors'] += b['harness_errors'][:20]
+    a['transient_harness_exceptions'] = (a.get('transient_harness_exceptions', []) + b.get('transient_harness_exceptions', []))[:20]
     if len(a['samples']) < 3:
         a['samples'] += b['samples'][:3 - len(a['samples'])]
 
@@ -469,6 +477,8 @@ def _run_check_inner(prop, tier, seed, mod, plan, n, jobs, budget_s, known, agg,
         print('HARNESS-ERROR in run index %s:\n%s' % (he['index'], he['error']))
     if agg['harness_errors']:
         harness_fail = harness_fail or ('%d runs raised inside the harness' % len(agg['harness_errors']))
+    for te in agg.get('transient_harness_exceptions', [])[:3]:
+        print('NOTE: run index %s raised inside the harness once (%s) and ran cleanly when re-executed' % (te['index'], te['error'][:160]))
     if agg['skipped']:
         print('NOTE: %d runs skipped because the wall budget (%gs) ran out' % (agg['skipped'], budget_s))
     if agg['evaluations'] == 0:
@@ -498,6 +508,7 @@ def _run_check_inner(prop, tier, seed, mod, plan, n, jobs, budget_s, known, agg,
             'components_stubbed': COMPONENTS_STUB + list(getattr(mod, 'COMPONENTS_STUB', [])),
             'replays': reported,
             'unreproducible_transients': unreproducible,
+            'transient_harness_exceptions': agg.get('transient_harness_exceptions', []),
             'exhaustive': False,
         },
         'assumptions': list(getattr(mod, 'ASSUMPTIONS', [])),
